@@ -536,7 +536,7 @@ func pureExternal(name string) bool {
 		"github.com/ethereum/go-ethereum/common.", "(github.com/ethereum/go-ethereum/common.", "github.com/ethereum/go-ethereum/crypto.", "math/bits.", "regexp.", "(*regexp.",
 		"github.com/ethereum/go-ethereum/common/hexutil.", "(github.com/cosmos/cosmos-sdk/types.AccAddress).", "github.com/cosmos/cosmos-sdk/types.AccAddressFromBech32",
 		"(time.Time).", "(time.Duration).", "sort.SearchInts", "github.com/cosmos/cosmos-sdk/types/errors.", "(*github.com/cosmos/cosmos-sdk/types/errors.Error).",
-		"github.com/tendermint/tendermint/crypto/tmhash.", "github.com/gogo/protobuf/proto.CompactTextString", "github.com/cosmos/ibc-go/v3/modules/apps/transfer/types.", "(github.com/cosmos/ibc-go/v3/modules/apps/transfer/types.DenomTrace).", "github.com/cosmos/cosmos-sdk/types.NewIntFromString", "(*github.com/cosmos/cosmos-sdk/codec/types.Any).GetCachedValue", "github.com/cosmos/cosmos-sdk/types.NewDecWithPrec", "github.com/tendermint/tendermint/types.ValidatorSetFromProto", "github.com/ethereum/go-ethereum/core/types.BytesToBloom", "github.com/ethereum/go-ethereum/core/types.EncodeNonce", "github.com/ethereum/go-ethereum/core/types.CalcUncleHash", "github.com/tendermint/tendermint/types.SignedHeaderFromProto", "(*github.com/tendermint/tendermint/types.ValidatorSet).Hash", "github.com/cosmos/cosmos-sdk/types.NewCoin", "github.com/gogo/protobuf/proto.Equal", "github.com/gogo/protobuf/proto.Size"} {
+		"github.com/tendermint/tendermint/crypto/tmhash.", "github.com/gogo/protobuf/proto.CompactTextString", "github.com/cosmos/ibc-go/v3/modules/apps/transfer/types.", "(github.com/cosmos/ibc-go/v3/modules/apps/transfer/types.DenomTrace).", "github.com/cosmos/cosmos-sdk/types.NewIntFromString", "(*github.com/cosmos/cosmos-sdk/codec/types.Any).GetCachedValue", "github.com/cosmos/cosmos-sdk/types.NewDecWithPrec", "github.com/tendermint/tendermint/types.ValidatorSetFromProto", "github.com/ethereum/go-ethereum/core/types.BytesToBloom", "github.com/ethereum/go-ethereum/core/types.EncodeNonce", "github.com/ethereum/go-ethereum/core/types.CalcUncleHash", "github.com/tendermint/tendermint/types.SignedHeaderFromProto", "(*github.com/tendermint/tendermint/types.ValidatorSet).Hash", "github.com/cosmos/cosmos-sdk/types.NewCoin", "github.com/cosmos/cosmos-sdk/types.ValidateDenom", "github.com/gogo/protobuf/proto.Equal", "github.com/gogo/protobuf/proto.Size"} {
 		if strings.HasPrefix(name, p) {
 			return true
 		}
